@@ -431,6 +431,9 @@ func TestVerifConnReplay(t *testing.T) {
 				out.Emit(&po)
 				break
 			}
+			if a.Res == "rej-limit" && (res == "rej-full" || res == "rej-ip") {
+				continue // intended-design model: Save re-tests the limits; either limit error is that refusal
+			}
 			if res != a.Res && a.Res != "" {
 				break // diverged from the model: the rest of the schedule is meaningless
 			}
